@@ -44,7 +44,7 @@ def harvest(prop, wt, name, needs):
     print("harvested", d)
 
 
-def verify(name, all_checks=False, tier="quick"):
+def verify(name, all_checks=False, tier="quick", before=False):
     d = VERIF / "seeded" / name
     meta = json.loads((d / "meta.json").read_text())
     prop = meta["property"]
@@ -89,6 +89,12 @@ def verify(name, all_checks=False, tier="quick"):
             whats = sorted({l.split('"what": "')[1].split('"')[0] for l in c.stdout.splitlines() if '"what": "' in l})
             caught[pid] = {"exit": c.returncode, "violations": whats[:6], "seconds": round(time.time() - t0)}
             ran.append(f"BLDFM_VERIF_SRC=<patched tree> ./check {pid} --tier {tier} -> exit {c.returncode} {whats[:3]}")
+        if before:
+            # result of the check as it stood when the change arrived (before it was strengthened)
+            meta["own_check_before_strengthening"] = caught[prop]
+            (d / "meta.json").write_text(json.dumps(meta, indent=1) + "\n")
+            print(name, "BEFORE strengthening:", caught[prop])
+            return
         meta.setdefault("checks", {}).update(caught)
         meta["caught_by_own_check"] = meta["checks"][prop]["exit"] == 1
         meta["what_was_run"] = ran
@@ -117,6 +123,6 @@ if __name__ == "__main__":
         harvest(a[1], a[2], a[3], a[4])
     elif a[0] == "verify":
         tier = a[a.index("--tier") + 1] if "--tier" in a else "quick"
-        verify(a[1], "--all-checks" in a, tier)
+        verify(a[1], "--all-checks" in a, tier, "--before" in a)
     elif a[0] == "table":
         table()
